@@ -321,7 +321,10 @@ class Language(object):
                     current = Application(previous, current, fix, unify)
                 stack.append(current)
 
-            previous_token = token
+            # Layout and comments are not tokens of the expression: `-` followed
+            # by a line break and `: T` is still an annotated anonymous source
+            if not comment and token != "\n":
+                previous_token = token
 
         if len(stack) == 1:
             result = stack[0]
